@@ -57,7 +57,7 @@ def run(chk):
         for sd in (range(chk.seed, chk.seed + (6 if thorough else 2))):
             for dl in odelays:
                 for dc in (1, 0):
-                    for w in (0, 1, 2):
+                    for w in (0, 1, 2, 3):       # 3: staggered frees of whole segments (a pending arena expiry must not be pushed back)
                         jobs.append(([h, 'oracle', str(sd), str(dl), str(dc), str(w)], None, 300))
         outs = V.pmap(jobs)
         rows = 0
